@@ -575,6 +575,29 @@ fn main() {
                 let b = guard(|| json!(Model::read_slice(pre).is_ok()));
                 json!({"read": a, "read_slice": b, "len": bytes.len()})
             }),
+            "model_read_chunked" => guard(|| {
+                // a reader that delivers at most `chunk` bytes per read() call: a valid model must still be read
+                struct Chunked<'a> { data: &'a [u8], pos: usize, chunk: usize }
+                impl<'a> std::io::Read for Chunked<'a> {
+                    fn read(&mut self, buf: &mut [u8]) -> std::io::Result<usize> {
+                        let n = buf.len().min(self.chunk).min(self.data.len() - self.pos);
+                        buf[..n].copy_from_slice(&self.data[self.pos..self.pos + n]);
+                        self.pos += n;
+                        Ok(n)
+                    }
+                }
+                let bytes = models.get(&s(&op["model"])).cloned().unwrap_or_default();
+                let mut bad = vec![];
+                for chunk in [1usize, 2, 3, 7, 16, 24, 25, 64] {
+                    match catch_unwind(AssertUnwindSafe(|| Model::read(Chunked { data: &bytes, pos: 0, chunk }).map(|m| m.to_vec().map(|v| v == bytes).unwrap_or(false)))) {
+                        Ok(Ok(true)) => {}
+                        Ok(Ok(false)) => bad.push(json!([chunk, "model read through a short-reading reader differs"])),
+                        Ok(Err(e)) => bad.push(json!([chunk, format!("valid model rejected through a short-reading reader: {e}")])),
+                        Err(_) => bad.push(json!([chunk, "read panicked"])),
+                    }
+                }
+                json!({"bad": bad})
+            }),
             "model_prefix_scan" => guard(|| {
                 // every proper byte prefix of the serialised model must be rejected by read and read_slice, without panicking
                 let bytes = models.get(&s(&op["model"])).cloned().unwrap_or_default();
